@@ -516,7 +516,7 @@ def note_failure(ctx, key, case, what):
     if key == 'c10:lmtp-data-before-flush':
         rank = 0 if clean else 1
     elif key == 'c10:lmtp-data-after-bad-rcpt-reply':
-        rank = 1 if 'holds 0 slot' in what else 0
+        rank = 1 if ' holds 0 slot' in what else 0
     else:
         rank = 0 if ' holds (' in what else (1 if 'consequence of' in what else 2)
     if case.get('kind') == 'count':
@@ -974,16 +974,10 @@ def plan_bad(seed, lmtp, pipelining, nrcpt, positions):
                 plan.append(p)
                 ops = ops[:i + 1]
                 break
-            elif any(si in bad for a, si in txn):
-                # HEAD: AttributeError on the recipient whose RCPT reply was a BadReply, after slots were queued
-                # for the accepted ones before it - known finding; the conversation is out of step from here on
-                p.update(expect='AttributeError', sent=False, filled=list(filled), npopped=len(popped), owed=len(owed),
-                         kinds=dict(kind_of))
-                plan.append(p)
-                ops = ops[:i + 1]
-                break
             else:
-                acc = [(a, si) for a, si in txn if script[si]['code'][0] == '2']
+                # a recipient whose RCPT reply was a BadReply (never filled) is not an accepted recipient
+                acc = [(a, si) for a, si in txn if si not in bad and script[si]['code'][0] == '2']
+                p['unanswered'] = [a for a, si in txn if si in bad]
                 p['accepted'] = [a for a, si in acc]
                 p['own'] = [alloc(i, j) for j in range(len(acc))]
                 groups.append(list(p['own']))
@@ -1088,11 +1082,12 @@ def run_bad(report, case, verbose=None):
             if got == 'ReadPastOwed':
                 ok = fail('c10:overread', i, 'the client called recv() while it was owed nothing (%d commands reached the server, '
                           '%d replies released)' % (sock.commands, sock.released)); break
-            if got == 'AttributeError' and p['expect'] == 'AttributeError':
+            if got == 'AttributeError' and p.get('unanswered'):
                 ok = fail('c10:lmtp-data-after-bad-rcpt-reply', i,
-                          'AttributeError (code is None): the RCPT reply of a recipient was a BadReply; reply_queue now holds %d '
-                          'slot(s) for which nothing was sent, the recipient list still has %d entries' % (
-                              len(client.reply_queue), len(client.rcpttos))); break
+                          'AttributeError (code is None) instead of the end-of-data replies for %r: the RCPT reply of %r was a '
+                          'BadReply; reply_queue now holds %d slot(s) for which nothing was sent, the recipient list still has %d '
+                          'entries' % (p['accepted'], p['unanswered'], len(client.reply_queue) - p['owed'] + len(p['own']),
+                                       len(client.rcpttos))); break
             if got != p['expect']:
                 if got == 'BadReply' and first_bad is not None:
                     ok = fail('c10:bad-reply-not-consumed', i,
